@@ -166,6 +166,9 @@ M("c16-add-hook-dropped","C16",R,"\tif r.postChangeHook != nil {\n\t\tfor _, nhg
 M("c16-hook-wrong-name","C16",R,"\t\tr.postChangeHook(constants.Delete, unixTS(), r.name, de)","\t\tr.postChangeHook(constants.Delete, unixTS(), \"\", de)","NOTIFY",occ=1)
 N("c16-n-hoist-hook","C16",R,"\tif r.postChangeHook != nil {\n\t\tr.postChangeHook(constants.Delete, unixTS(), r.name, de)\n\t}\n\n\treturn true, de, nil\n}\n\n// retrieveIPv4","\tif hook := r.postChangeHook; hook != nil {\n\t\thook(constants.Delete, unixTS(), r.name, de)\n\t}\n\n\treturn true, de, nil\n}\n\n// retrieveIPv4",note="hook read into a local first")
 
+M("c07-poptoplabel-not-copied","C07",R,"\tif e.PopTopLabel != nil {\n\t\tnhproto.PopTopLabel = &wpb.BoolValue{Value: e.GetPopTopLabel()}\n\t}\n","","WIRE-FIELD-ROUNDTRIP")
+M("c07-poptoplabel-only-when-true","C07",R,"\tif e.PopTopLabel != nil {\n\t\tnhproto.PopTopLabel","\tif e.GetPopTopLabel() {\n\t\tnhproto.PopTopLabel","WIRE-FIELD-ROUNDTRIP",note="an explicit false is installed but not reported")
+N("c07-n-poptoplabel-deref","C07",R,"\tif e.PopTopLabel != nil {\n\t\tnhproto.PopTopLabel = &wpb.BoolValue{Value: e.GetPopTopLabel()}","\tif nil != e.PopTopLabel {\n\t\tnhproto.PopTopLabel = &wpb.BoolValue{Value: *e.PopTopLabel}",note="commuted nil test, dereference instead of getter")
 # ---------------- C17
 M("c17-mpls-want-unchecked","C17",K,"\t\tdefault:\n\t\t\tt.Fatalf(\"test error: cannot check for wanted message %v, its details identify no entry\", want)\n","","CACHED-DELEGATES")
 M("c17-servererror-inverted","C17",K,"\tif !hasIncludeServerError(opt) {","\tif hasIncludeServerError(opt) {","IGNORE-OPTIONS")
